@@ -92,6 +92,17 @@ CHECKS = {
               'terminals, factors and domains are checked, the sum-product of the factorized grammar is compared with the reference in 4 semirings, '
               'and a spy hook on tree_decomposition records which method actually ran for each entry point.'),
         design_ref='DESIGN.md §4 C05'),
+    'C06': dict(
+        technique='differential monitor of every PatternedTensor operation vs torch on independently densified operands + invariant hook on __post_init__ (FGGS_VERIF) + lock-step random programs (runtime monitoring)',
+        text=('Runtime monitoring: type-directed random operands (sum/product/shared axes, stride-0 storage, size-1 and zero-size axes, all defaults, '
+              'operands sharing PhysicalAxis objects) are put through ~90 operation variants of the class (arithmetic with tensors/scalars/broadcasting, '
+              'comparisons, logical ops, unary maps and in-place forms on clones, where, any, log_softmax, norm, indexing, iteration, tolist, '
+              'transpose/permute/flatten/unsqueeze/expand/stack, reshape/view incl. the must-succeed cases, clone/copy_/to/default_to/project/'
+              'dim_to_dense, constructors) and through short random programs; each result is densified by index arithmetic of our own and compared '
+              'with torch on the dense operands (bitwise for exact ops, 4 ulp otherwise). With FGGS_VERIF=1 a wrapper on PatternedTensor.__post_init__ '
+              'checks the representation invariant of every tensor the library constructs (about 270k constructions, 7k distinct pattern shapes per '
+              'quick run), including under sum-product/backward workloads on patterned weights.'),
+        design_ref='DESIGN.md §4 C06'),
 }
 
 NOT_BUILT = {}
